@@ -6,9 +6,11 @@ CONSTANTS
   ExtraPayloads = {}
   Sizes <- MCSizesBig
   Runes <- MCRunes
+  RErrs = {"EOF", "boom", "panic"}
+  WErrs = {"nil", "boom", "panic"}
   MaxLen = 5
 CONSTRAINT Bound
 INVARIANTS TypeOK PrevOK CleanNoUnread
-PROPERTIES WritesAppend WriteRuneSound ReadsConsume UnreadRestores QueriesPure PanicsKeepData WriteToDrains ReWriteExact
+PROPERTIES WritesAppend WriteRuneSound ReadsConsume UnreadRestores QueriesPure PanicsKeepData WriteToDrains ReWriteExact PokeExact PipeMoves
 VIEW View
 CHECK_DEADLOCK FALSE
